@@ -6,6 +6,8 @@
 #include <GeographicLib/GeodesicLineExact.hpp>
 #include <GeographicLib/Rhumb.hpp>
 #include <GeographicLib/Math.hpp>
+#include <algorithm>
+#include <new>
 using namespace GeographicLib; using namespace gv;
 
 static const double SENT[8] = {1.25e77, 2.25e77, 3.25e77, 4.25e77, 5.25e77, 6.25e77, 7.25e77, 8.25e77};
@@ -14,36 +16,125 @@ struct Outs { double v[8]; Outs() { for (int i = 0; i < 8; ++i) v[i] = SENT[i]; 
 static const unsigned FLAGS_G[9] = {Geodesic::LATITUDE, Geodesic::LONGITUDE, Geodesic::AZIMUTH, Geodesic::DISTANCE, Geodesic::DISTANCE_IN, Geodesic::REDUCEDLENGTH, Geodesic::GEODESICSCALE, Geodesic::AREA, Geodesic::LONG_UNROLL};
 static const unsigned FLAGS_E[9] = {GeodesicExact::LATITUDE, GeodesicExact::LONGITUDE, GeodesicExact::AZIMUTH, GeodesicExact::DISTANCE, GeodesicExact::DISTANCE_IN, GeodesicExact::REDUCEDLENGTH, GeodesicExact::GEODESICSCALE, GeodesicExact::AREA, GeodesicExact::LONG_UNROLL};
 static unsigned build(const unsigned* fl, unsigned sel) { unsigned m = 0; for (int i = 0; i < 9; ++i) if (sel & (1u << i)) m |= fl[i]; return m; }
+// index into FLAGS_x of the flag that governs output slot i (lat2 lon2 azi2 s12 m12 M12 M21 S12)
+static const int SLOTFLAG[8] = {0, 1, 2, 3, 5, 6, 6, 7};
+static unsigned slotmask(const unsigned* fl, unsigned slots) { unsigned m = 0; for (int i = 0; i < 8; ++i) if (slots & (1u << i)) m |= fl[SLOTFLAG[i]]; return m; }
+static bool same(double a, double b) { return bits(a) == bits(b) || (std::isnan(a) && std::isnan(b)); }
+static std::string tk(double x) { return std::isnan(x) ? "nan" : hx(x); }
+static double untk(const std::string& s) { return s == "nan" ? Math::NaN() : unhx(s); }
 
-static const Geodesic& G() { static const Geodesic g(6378137, 1 / 298.257223563); return g; }
-static const Geodesic& X() { static const Geodesic g(6378137, 1 / 298.257223563, true); return g; }
-static const GeodesicExact& E() { static const GeodesicExact g(6378137, 1 / 298.257223563); return g; }
+// A default-constructed line object built over memory painted with `fill`: the default constructors set `_caps` only, so the
+// other members are whatever the memory held.  fill = 0 / 1 make the member `bool _exact` of GeodesicLine a valid false / true
+// (both branches of GenPosition, deterministically); fill = 7 is the garbage a stack usually holds (see finding F66).
+template<class Line> struct DefLine {
+  alignas(Line) unsigned char buf[sizeof(Line)];
+  Line* p;
+  explicit DefLine(int fill) { std::memset(buf, fill, sizeof buf); asm volatile("" : : "r"(buf) : "memory"); p = new (buf) Line(); }
+  ~DefLine() { p->~Line(); }
+};
+// Run `body` in a forked child and forward what it prints.  Used for the operations on a *default-constructed* line: if the
+// sanitizer aborts the child, the parent reports it as a failing input of this op (#BAD) and the remaining cases still run.
+#include <sys/wait.h>
+template<class F> static void in_child(F body) {
+  std::fflush(stdout); std::fflush(stderr);
+  int po[2], pe[2]; if (pipe(po) != 0 || pipe(pe) != 0) { body(); return; }
+  pid_t pid = fork();
+  if (pid < 0) { body(); return; }
+  if (pid == 0) { close(po[0]); close(pe[0]); dup2(po[1], 1); dup2(pe[1], 2); body(); std::fflush(stdout); _exit(0); }
+  close(po[1]); close(pe[1]);
+  std::string so, se; char buf[4096]; ssize_t n;
+  while ((n = read(po[0], buf, sizeof buf)) > 0) so.append(buf, size_t(n));
+  while ((n = read(pe[0], buf, sizeof buf)) > 0) se.append(buf, size_t(n));
+  close(po[0]); close(pe[0]);
+  int st = 0; waitpid(pid, &st, 0);
+  std::istringstream is(so); std::string line;
+  while (std::getline(is, line)) if (line.rfind("#CRASH", 0) != 0) std::printf("%s\n", line.c_str());
+  if (!(WIFEXITED(st) && WEXITSTATUS(st) == 0)) {
+    std::string first = se.substr(0, se.find('\n')); for (char& ch : first) if (ch == ':' && (&ch)[1] == ':') ch = ';';
+    bad("sanitizer-abort", "the operation on the line object was aborted by the sanitizer: " + first.substr(0, 300));
+  }
+}
 
+// Paint the part of the stack the next call will use with a given double: a local that the library reads before writing it
+// then has a reproducible value (negative / positive / NaN) instead of whatever the previous call left there.
+__attribute__((noinline)) static void paint_stack(double v) {
+  volatile double a[2048]; for (int i = 0; i < 2048; ++i) a[i] = v; asm volatile("" : : "r"(a) : "memory");
+}
+// ellipsoids: 0 = WGS84, 1 = f 0.02 (|f| > 0.01: the Newton correction of the series line is active), 2 = prolate −0.02, 3 = sphere
+static const double ELLF[4] = {1 / 298.257223563, 0.02, -0.02, 0};
+static int ellOf(const std::string& sv) { return sv.size() > 1 ? std::min(3, std::max(0, sv[1] - '0')) : 0; }
+static const Geodesic& G(int k = 0) { static const Geodesic g[4] = {Geodesic(6378137, ELLF[0]), Geodesic(6378137, ELLF[1]), Geodesic(6378137, ELLF[2]), Geodesic(6378137, ELLF[3])}; return g[k]; }
+static const Geodesic& X(int k = 0) { static const Geodesic g[4] = {Geodesic(6378137, ELLF[0], true), Geodesic(6378137, ELLF[1], true), Geodesic(6378137, ELLF[2], true), Geodesic(6378137, ELLF[3], true)}; return g[k]; }
+static const GeodesicExact& E(int k = 0) { static const GeodesicExact g[4] = {GeodesicExact(6378137, ELLF[0]), GeodesicExact(6378137, ELLF[1]), GeodesicExact(6378137, ELLF[2]), GeodesicExact(6378137, ELLF[3])}; return g[k]; }
+// rhumb: "R" series, "S" exact (Rhumb(a, f, true))
+static const Rhumb& RH(const std::string& sv) {
+  static const Rhumb r[8] = {Rhumb(6378137, ELLF[0]), Rhumb(6378137, ELLF[1]), Rhumb(6378137, ELLF[2]), Rhumb(6378137, ELLF[3]),
+                             Rhumb(6378137, ELLF[0], true), Rhumb(6378137, ELLF[1], true), Rhumb(6378137, ELLF[2], true), Rhumb(6378137, ELLF[3], true)};
+  return r[(sv[0] == 'S' ? 4 : 0) + ellOf(sv)];
+}
+static bool isRhumb(const std::string& sv) { return sv[0] == 'R' || sv[0] == 'S'; }
+
+// ---------------------------------------------------------------------------------------------------------------------
+// (1) which outputs are written
+// ---------------------------------------------------------------------------------------------------------------------
 static Reg r_linemask("linemask", [](const Args& a) {
-  unsigned caps = unsigned(std::stoul(a[1])), om = unsigned(std::stoul(a[2])); bool arc = a[3] == "1"; Outs o; double r;
-  if (a[0] == "E") { GeodesicLineExact l(E(), 40, 10, 30, caps); r = l.GenPosition(arc, arc ? 20.0 : 2e6, om, o.v[0], o.v[1], o.v[2], o.v[3], o.v[4], o.v[5], o.v[6], o.v[7]); }
-  else { GeodesicLine l(a[0] == "G" ? G() : X(), 40, 10, 30, caps); r = l.GenPosition(arc, arc ? 20.0 : 2e6, om, o.v[0], o.v[1], o.v[2], o.v[3], o.v[4], o.v[5], o.v[6], o.v[7]); }
+  unsigned caps = unsigned(std::stoul(a[1])), om = unsigned(std::stoul(a[2])); bool arc = a[3] == "1"; Outs o; double r; int k = ellOf(a[0]);
+  if (a[0][0] == 'E') { GeodesicLineExact l(E(k), 40, 10, 30, caps); r = l.GenPosition(arc, arc ? 20.0 : 2e6, om, o.v[0], o.v[1], o.v[2], o.v[3], o.v[4], o.v[5], o.v[6], o.v[7]); }
+  else { GeodesicLine l(a[0][0] == 'G' ? G(k) : X(k), 40, 10, 30, caps); r = l.GenPosition(arc, arc ? 20.0 : 2e6, om, o.v[0], o.v[1], o.v[2], o.v[3], o.v[4], o.v[5], o.v[6], o.v[7]); }
   emit(std::to_string(o.written()) + " " + (std::isnan(r) ? "1" : "0"));
 });
+// a default-constructed line: Init() is false, nothing can be located
+template<class Line> static void uninit_line(const unsigned* fl, unsigned om, bool arc, int fill) {
+  DefLine<Line> dl(fill); const Line& l = *dl.p; Outs o; double r = l.GenPosition(arc, arc ? 20.0 : 2e6, om, o.v[0], o.v[1], o.v[2], o.v[3], o.v[4], o.v[5], o.v[6], o.v[7]);
+  // the overloads and the accessors of an uninitialised object
+  Outs p; double r2 = l.Position(2e6, p.v[0], p.v[1], p.v[2], p.v[4], p.v[5], p.v[6], p.v[7]); l.ArcPosition(20, p.v[0], p.v[1], p.v[2], p.v[3], p.v[4], p.v[5], p.v[6], p.v[7]);
+  if (p.written() || !std::isnan(r2)) bad("uninitialised-line", "Position/ArcPosition of a default-constructed line wrote an output or returned a number");
+  double sa = SENT[0], ca = SENT[1]; l.Azimuth(sa, ca); l.EquatorialAzimuth(sa, ca);
+  if (bits(sa) != bits(SENT[0]) || bits(ca) != bits(SENT[1])) bad("uninitialised-line", "Azimuth(s, c) of a default-constructed line wrote its arguments");
+  if (!(std::isnan(l.Latitude()) && std::isnan(l.Longitude()) && std::isnan(l.Azimuth()) && std::isnan(l.EquatorialAzimuth()) && std::isnan(l.EquatorialArc()) &&
+        std::isnan(l.EquatorialRadius()) && std::isnan(l.Flattening()) && std::isnan(l.Distance()) && std::isnan(l.Arc()) && std::isnan(l.GenDistance(false)) && std::isnan(l.GenDistance(true))))
+    bad("uninitialised-line", "an accessor of a default-constructed line returned a number");
+  if (l.Init() || l.Capabilities() != 0u || l.Capabilities(fl[0])) bad("uninitialised-line", "Init()/Capabilities() of a default-constructed line");
+  emit(std::to_string(o.written()) + " " + (std::isnan(r) ? "1" : "0"));
+}
+static Reg r_uninitmask("uninitmask", [](const Args& a) {
+  unsigned om = unsigned(std::stoul(a[1])); bool arc = a[2] == "1"; int fill = std::stoi(a[3]);
+  auto body = [&] { if (a[0][0] == 'E') uninit_line<GeodesicLineExact>(FLAGS_E, om, arc, fill); else uninit_line<GeodesicLine>(FLAGS_G, om, arc, fill); };
+  if (fill > 1 && a[0][0] != 'E') in_child(body); else body();
+});
 static Reg r_invmask("invmask", [](const Args& a) {
-  unsigned om = unsigned(std::stoul(a[1])); Outs o; // slots: s12->3, azi1->0 (reported as azi2 slot 2 together), azi2->2, m12..S12
-  double salp1 = SENT[0], calp1 = SENT[0], salp2 = SENT[0], calp2 = SENT[0], azi1 = SENT[1], azi2 = SENT[2];
-  (void)salp1; (void)calp1; (void)salp2; (void)calp2;
-  if (a[0] == "R") { double s12 = SENT[3], az = SENT[2], S12 = SENT[7]; Rhumb::WGS84().GenInverse(10, 20, 30, 50, om, s12, az, S12); o.v[3] = s12; o.v[2] = az; o.v[7] = S12; }
-  else if (a[0] == "E") { E().GenInverse(10, 20, 30, 50, om, o.v[3], azi1, azi2, o.v[4], o.v[5], o.v[6], o.v[7]); o.v[2] = azi2; if ((bits(azi1) != bits(SENT[1])) != (bits(azi2) != bits(SENT[2]))) bad("azimuth-pair", "azi1 and azi2 not written together"); }
-  else { (a[0] == "G" ? G() : X()).GenInverse(10, 20, 30, 50, om, o.v[3], azi1, azi2, o.v[4], o.v[5], o.v[6], o.v[7]); o.v[2] = azi2; if ((bits(azi1) != bits(SENT[1])) != (bits(azi2) != bits(SENT[2]))) bad("azimuth-pair", "azi1 and azi2 not written together"); }
+  unsigned om = unsigned(std::stoul(a[1])); Outs o; int k = ellOf(a[0]); // slots: s12->3, azi1/azi2 -> 2 (must be written together), m12..S12
+  double azi1 = SENT[1], azi2 = SENT[2];
+  if (isRhumb(a[0])) { double s12 = SENT[3], az = SENT[2], S12 = SENT[7]; RH(a[0]).GenInverse(10, 20, 30, 50, om, s12, az, S12); o.v[3] = s12; o.v[2] = az; o.v[7] = S12; }
+  else if (a[0][0] == 'E') { E(k).GenInverse(10, 20, 30, 50, om, o.v[3], azi1, azi2, o.v[4], o.v[5], o.v[6], o.v[7]); o.v[2] = azi2; if ((bits(azi1) != bits(SENT[1])) != (bits(azi2) != bits(SENT[2]))) bad("azimuth-pair", "azi1 and azi2 not written together"); }
+  else { (a[0][0] == 'G' ? G(k) : X(k)).GenInverse(10, 20, 30, 50, om, o.v[3], azi1, azi2, o.v[4], o.v[5], o.v[6], o.v[7]); o.v[2] = azi2; if ((bits(azi1) != bits(SENT[1])) != (bits(azi2) != bits(SENT[2]))) bad("azimuth-pair", "azi1 and azi2 not written together"); }
   emit(std::to_string(o.written()));
 });
 static Reg r_dirmask("dirmask", [](const Args& a) {
-  unsigned om = unsigned(std::stoul(a[1])); bool arc = a[2] == "1"; Outs o;
-  if (a[0] == "R") { Rhumb::WGS84().GenDirect(10, 20, 30, 2e6, om, o.v[0], o.v[1], o.v[7]); }
-  else if (a[0] == "E") E().GenDirect(10, 20, 30, arc, arc ? 20.0 : 2e6, om, o.v[0], o.v[1], o.v[2], o.v[3], o.v[4], o.v[5], o.v[6], o.v[7]);
-  else (a[0] == "G" ? G() : X()).GenDirect(10, 20, 30, arc, arc ? 20.0 : 2e6, om, o.v[0], o.v[1], o.v[2], o.v[3], o.v[4], o.v[5], o.v[6], o.v[7]);
+  unsigned om = unsigned(std::stoul(a[1])); bool arc = a[2] == "1"; Outs o; int k = ellOf(a[0]);
+  if (isRhumb(a[0])) { RH(a[0]).GenDirect(10, 20, 30, 2e6, om, o.v[0], o.v[1], o.v[7]); }
+  else if (a[0][0] == 'E') E(k).GenDirect(10, 20, 30, arc, arc ? 20.0 : 2e6, om, o.v[0], o.v[1], o.v[2], o.v[3], o.v[4], o.v[5], o.v[6], o.v[7]);
+  else (a[0][0] == 'G' ? G(k) : X(k)).GenDirect(10, 20, 30, arc, arc ? 20.0 : 2e6, om, o.v[0], o.v[1], o.v[2], o.v[3], o.v[4], o.v[5], o.v[6], o.v[7]);
   emit(std::to_string(o.written()));
 });
+// RhumbLine::GenPosition, on either side of the pole (beyond it lon2 and S12 are NaN but still *written*)
+static Reg r_rlinemask("rlinemask", [](const Args& a) {
+  unsigned om = unsigned(std::stoul(a[1])); double s12 = unhx(a[2]); Outs o;
+  RhumbLine l = RH(a[0]).Line(10, 20, 30); l.GenPosition(s12, om, o.v[0], o.v[1], o.v[7]);
+  emit(std::to_string(o.written()));
+});
+// Capabilities() / Capabilities(testcaps)
+static Reg r_capstest("capstest", [](const Args& a) {
+  unsigned caps = unsigned(std::stoul(a[1])), tc = unsigned(std::stoul(a[2])); int k = ellOf(a[0]); unsigned c; bool t, t0;
+  if (a[0][0] == 'E') { GeodesicLineExact l(E(k), 40, 10, 30, caps); c = l.Capabilities(); t = l.Capabilities(tc); t0 = l.Init(); }
+  else { GeodesicLine l(a[0][0] == 'G' ? G(k) : X(k), 40, 10, 30, caps); c = l.Capabilities(); t = l.Capabilities(tc); t0 = l.Init(); }
+  emit(std::to_string(c) + " " + (t ? "1" : "0") + " " + (t0 ? "1" : "0"));
+});
 
-// ---- values do not depend on the mask / overload / extra capabilities; line consistency ----
-template<class Geod, class Line> static void values(const Geod& g, const unsigned* fl, double lat1, double lon1, double azi1, double len, bool arc, uint64_t sub) {
+// ---------------------------------------------------------------------------------------------------------------------
+// (2) values do not depend on the mask / overload / extra capabilities; line consistency
+// ---------------------------------------------------------------------------------------------------------------------
+template<class Geod, class Line> static void values(const Geod& g, const unsigned* fl, int ell, double lat1, double lon1, double azi1, double len, bool arc, uint64_t sub) {
   unsigned ALLM = build(fl, 0xff & ~0x10u) | fl[4];  // everything incl. DISTANCE_IN
   for (int unroll = 0; unroll < 2; ++unroll) {
     Outs ref; Line lall(g, lat1, lon1, azi1, ALLM);
@@ -57,22 +148,26 @@ template<class Geod, class Line> static void values(const Geod& g, const unsigne
       Outs p; Line lmin(g, lat1, lon1, azi1, om | (arc ? 0u : fl[4])); double r2 = lmin.GenPosition(arc, len, om, p.v[0], p.v[1], p.v[2], p.v[3], p.v[4], p.v[5], p.v[6], p.v[7]);
       // (c) GenDirect
       Outs q; double r3 = g.GenDirect(lat1, lon1, azi1, arc, len, om, q.v[0], q.v[1], q.v[2], q.v[3], q.v[4], q.v[5], q.v[6], q.v[7]);
+      // (d) a line with some further capabilities (neither minimal nor full), asked with the full mask: the outputs it can give
+      unsigned extra = build(fl, unsigned((sel * 40503u + sub * 7u) & 0xefu));
+      Outs w; Line lmid(g, lat1, lon1, azi1, om | extra | (arc ? 0u : fl[4])); double r4 = lmid.GenPosition(arc, len, ALLM | (unroll ? fl[8] : 0), w.v[0], w.v[1], w.v[2], w.v[3], w.v[4], w.v[5], w.v[6], w.v[7]);
       for (int i = 0; i < 8; ++i) {
-        const Outs* all3[3] = {&o, &p, &q}; const char* nm[3] = {"GenPosition(full caps)", "GenPosition(min caps)", "GenDirect"};
-        for (int k = 0; k < 3; ++k) {
-          double v = all3[k]->v[i]; if (bits(v) == bits(SENT[i])) continue;
-          if (bits(v) != bits(ref.v[i]) && !(std::isnan(v) && std::isnan(ref.v[i])))
+        const Outs* all4[4] = {&o, &p, &q, &w}; const char* nm[4] = {"GenPosition(full caps)", "GenPosition(min caps)", "GenDirect", "GenPosition(intermediate caps, full mask)"};
+        for (int k = 0; k < 4; ++k) {
+          double v = all4[k]->v[i]; if (bits(v) == bits(SENT[i])) continue;
+          if (!same(v, ref.v[i]))
             bad("value-depends-on-mask", std::string(nm[k]) + ": output " + std::to_string(i) + " with mask selection " + std::to_string(sel) + (unroll ? "+unroll" : "") + (arc ? " arcmode" : " distance") + " = " + hx(v) + " but " + hx(ref.v[i]) + " with the full mask");
         }
       }
-      if (bits(r1) != bits(rr) || bits(r2) != bits(rr) || bits(r3) != bits(rr)) bad("value-depends-on-mask", "returned arc length depends on the mask");
+      if (!same(r1, rr) || !same(r2, rr) || !same(r3, rr) || !same(r4, rr)) bad("value-depends-on-mask", "returned arc length depends on the mask");
     }
     // arc <-> distance consistency and third point
     if (unroll == 0 && std::isfinite(ref.v[3])) {
       double a12 = arc ? len : rr, s12 = ref.v[3];
       double la, lo, az, la2, lo2, az2; lall.ArcPosition(a12, la, lo, az); lall.Position(s12, la2, lo2, az2);
       double d = std::hypot(la - la2, Math::AngDiff(lo, lo2) * std::cos(la * Math::degree())) * 111e3;
-      if (std::fabs(la) < 89.9 && !(d < 100e-9 * std::fmax(1.0, std::fabs(a12) / 180))) bad("arc-vs-distance", "ArcPosition(a12) and Position(s12) differ by " + std::to_string(d * 1e9) + " nm");
+      bool tolok = ell == 0 || ell == 3;   // the documented accuracy is for |f| up to about 1/150
+      if (tolok && std::fabs(la) < 89.9 && !(d < 100e-9 * std::fmax(1.0, std::fabs(a12) / 180))) bad("arc-vs-distance", "ArcPosition(a12) and Position(s12) differ by " + std::to_string(d * 1e9) + " nm");
       Line l3 = g.DirectLine(lat1, lon1, azi1, s12); double la3, lo3; l3.Position(l3.Distance(), la3, lo3);
       double la4, lo4; g.Direct(lat1, lon1, azi1, s12, la4, lo4);
       if (bits(la3) != bits(la4) || bits(lo3) != bits(lo4)) bad("third-point", "DirectLine(...).Position(Distance()) differs from Direct");
@@ -80,7 +175,7 @@ template<class Geod, class Line> static void values(const Geod& g, const unsigne
       if (bits(la5) != bits(la) || bits(lo5) != bits(lo)) bad("third-point", "ArcDirectLine(...).ArcPosition(Arc()) differs from ArcPosition");
       Line l5 = g.InverseLine(lat1, lon1, la2, lo2); double la6, lo6; l5.Position(l5.Distance(), la6, lo6);
       double d6 = std::hypot(la6 - la2, Math::AngDiff(lo6, lo2) * std::cos(la2 * Math::degree())) * 111e3;
-      if (std::fabs(la2) < 89.9 && std::fabs(s12) < 1.9e7 && !(d6 < 100e-9)) bad("third-point", "InverseLine(...).Position(Distance()) misses point 2 by " + std::to_string(d6 * 1e9) + " nm");
+      if (tolok && std::fabs(la2) < 89.9 && std::fabs(s12) < 1.9e7 && !(d6 < 100e-9)) bad("third-point", "InverseLine(...).Position(Distance()) misses point 2 by " + std::to_string(d6 * 1e9) + " nm");
       Line l6(g, lat1, lon1, azi1); l6.SetDistance(s12); if (bits(l6.Distance()) != bits(s12)) bad("third-point", "SetDistance/Distance"); l6.SetArc(a12); if (bits(l6.Arc()) != bits(a12)) bad("third-point", "SetArc/Arc");
       // a line lacking DISTANCE_IN returns NaN for a distance query, and leaves outputs untouched
       Line l7(g, lat1, lon1, azi1, fl[0] | fl[1]); Outs u; double r7 = l7.GenPosition(false, s12, ALLM, u.v[0], u.v[1], u.v[2], u.v[3], u.v[4], u.v[5], u.v[6], u.v[7]);
@@ -92,45 +187,232 @@ template<class Geod> static void inverse_values(const Geod& g, const unsigned* f
   unsigned ALLM = build(fl, 0xef);
   double s, a1, a2, m, M12, M21, S; double a12 = g.GenInverse(lat1, lon1, lat2, lon2, ALLM, s, a1, a2, m, M12, M21, S);
   double ref[7] = {s, a1, a2, m, M12, M21, S};
-  for (unsigned sel = 1; sel < 256; sel += 1) { if (sel & 0x10) continue;
+  for (unsigned sel = 1; sel < 512; sel += 1) { if (sel & 0x10) continue;      // all 2^7 masks, with and without LONG_UNROLL
     unsigned om = build(fl, sel); double v[7] = {SENT[0], SENT[1], SENT[2], SENT[3], SENT[4], SENT[5], SENT[6]};
+    paint_stack(sel % 3 == 0 ? -1.0 : sel % 3 == 1 ? 1.0 : Math::NaN());
     double b12 = g.GenInverse(lat1, lon1, lat2, lon2, om, v[0], v[1], v[2], v[3], v[4], v[5], v[6]);
-    if (bits(b12) != bits(a12)) bad("value-depends-on-mask", "GenInverse a12 depends on the mask");
+    if (!same(b12, a12)) bad("value-depends-on-mask", "GenInverse a12 depends on the mask (selection " + std::to_string(sel) + ": " + hx(b12) + " vs " + hx(a12) + ")");
     for (int i = 0; i < 7; ++i) { if (bits(v[i]) == bits(SENT[i])) continue;
-      double tol = (i == 3 ? 1e-9 + 8 * ulp(ref[i]) : (i == 4 || i == 5) ? 4e-15 : 0);   // m12, M12, M21: "beyond round-off" (J12 is summed differently without DISTANCE)
-      if (!(std::fabs(v[i] - ref[i]) <= tol) && !(std::isnan(v[i]) && std::isnan(ref[i]))) bad("value-depends-on-mask", "GenInverse output " + std::to_string(i) + " with mask selection " + std::to_string(sel) + " = " + hx(v[i]) + " but " + hx(ref[i]) + " with the full mask"); }
+      double tol = (i == 3 ? 1e-9 + 8 * ulp(ref[i]) : (i == 4 || i == 5) ? 4e-15 : 0);   // m12, M12, M21: "beyond round-off" (J12 may be summed differently without DISTANCE)
+      if (!(std::fabs(v[i] - ref[i]) <= tol) && !same(v[i], ref[i])) bad("value-depends-on-mask", "GenInverse output " + std::to_string(i) + " with mask selection " + std::to_string(sel) + " = " + hx(v[i]) + " but " + hx(ref[i]) + " with the full mask"); }
+    static const int WFLAG[7] = {3, 2, 2, 5, 6, 6, 7};
+    for (int i = 0; i < 7; ++i) if (((sel >> WFLAG[i]) & 1u) != (bits(v[i]) != bits(SENT[i]) ? 1u : 0u)) bad("written-set", "GenInverse output " + std::to_string(i) + " with mask selection " + std::to_string(sel) + ": written although not requested, or requested and not written");
   }
-  // overloads
-  double s2; g.Inverse(lat1, lon1, lat2, lon2, s2); if (bits(s2) != bits(s)) bad("overload", "Inverse(s12) overload differs");
-  double s3, b1, b2, m3; g.Inverse(lat1, lon1, lat2, lon2, s3, b1, b2, m3); if (bits(s3) != bits(s) || bits(b1) != bits(a1) || std::fabs(m3 - m) > 1e-9 + 8 * ulp(m)) bad("overload", "Inverse(s12, azi1, azi2, m12) overload differs");
 }
-static void rhumb_values(double lat1, double lon1, double azi, double s12) {
-  const Rhumb& r = Rhumb::WGS84(); const unsigned fl[4] = {Rhumb::LATITUDE, Rhumb::LONGITUDE, Rhumb::AREA, Rhumb::LONG_UNROLL};
+static void rhumb_values(const Rhumb& r, double lat1, double lon1, double azi, double s12) {
+  const unsigned fl[4] = {Rhumb::LATITUDE, Rhumb::LONGITUDE, Rhumb::AREA, Rhumb::LONG_UNROLL};
   for (int un = 0; un < 2; ++un) {
     double rl = SENT[0], ro = SENT[1], rS = SENT[7]; r.GenDirect(lat1, lon1, azi, s12, fl[0] | fl[1] | fl[2] | (un ? fl[3] : 0), rl, ro, rS);
-    for (unsigned sel = 1; sel < 8; ++sel) { unsigned om = (sel & 1 ? fl[0] : 0) | (sel & 2 ? fl[1] : 0) | (sel & 4 ? fl[2] : 0) | (un ? fl[3] : 0);
-      double l = SENT[0], o = SENT[1], S = SENT[7]; r.GenDirect(lat1, lon1, azi, s12, om, l, o, S);
-      double l2 = SENT[0], o2 = SENT[1], S2 = SENT[7]; r.Line(lat1, lon1, azi).GenPosition(s12, om, l2, o2, S2);
-      auto chk = [&](double v, double rf, double sent, const char* n) { if (bits(v) != bits(sent) && bits(v) != bits(rf) && !(std::isnan(v) && std::isnan(rf))) bad("value-depends-on-mask", std::string("Rhumb ") + n + " depends on the mask (selection " + std::to_string(sel) + (un ? "+unroll)" : ")")); };
-      chk(l, rl, SENT[0], "lat2"); chk(o, ro, SENT[1], "lon2"); chk(S, rS, SENT[7], "S12"); chk(l2, rl, SENT[0], "line lat2"); chk(o2, ro, SENT[1], "line lon2"); chk(S2, rS, SENT[7], "line S12");
-      if (((sel & 1) != 0) != (bits(l) != bits(SENT[0])) || ((sel & 2) != 0) != (bits(o) != bits(SENT[1])) || ((sel & 4) != 0) != (bits(S) != bits(SENT[7]))) bad("written-set", "Rhumb::GenDirect wrote an unrequested output or skipped a requested one");
+    for (unsigned sel = 0; sel < 8; ++sel) { unsigned om = (sel & 1 ? fl[0] : 0) | (sel & 2 ? fl[1] : 0) | (sel & 4 ? fl[2] : 0) | (un ? fl[3] : 0);
+      for (int extra = 0; extra < 2; ++extra) {   // bits that mean nothing to Rhumb::GenDirect (AZIMUTH, DISTANCE and the geodesic-only ones) must not matter
+        unsigned om2 = om | (extra ? (Rhumb::AZIMUTH | Rhumb::DISTANCE | (1u << 11) | (1u << 12) | (1u << 13)) : 0u);
+        double l = SENT[0], o = SENT[1], S = SENT[7]; r.GenDirect(lat1, lon1, azi, s12, om2, l, o, S);
+        double l2 = SENT[0], o2 = SENT[1], S2 = SENT[7]; r.Line(lat1, lon1, azi).GenPosition(s12, om2, l2, o2, S2);
+        auto chk = [&](double v, double rf, double sent, const char* n) { if (bits(v) != bits(sent) && !same(v, rf)) bad("value-depends-on-mask", std::string("Rhumb ") + n + " depends on the mask (selection " + std::to_string(sel) + (un ? "+unroll)" : ")")); };
+        chk(l, rl, SENT[0], "lat2"); chk(o, ro, SENT[1], "lon2"); chk(S, rS, SENT[7], "S12"); chk(l2, rl, SENT[0], "line lat2"); chk(o2, ro, SENT[1], "line lon2"); chk(S2, rS, SENT[7], "line S12");
+        if (((sel & 1) != 0) != (bits(l) != bits(SENT[0])) || ((sel & 2) != 0) != (bits(o) != bits(SENT[1])) || ((sel & 4) != 0) != (bits(S) != bits(SENT[7]))) bad("written-set", "Rhumb.GenDirect wrote an unrequested output or skipped a requested one");
+        if (((sel & 1) != 0) != (bits(l2) != bits(SENT[0])) || ((sel & 2) != 0) != (bits(o2) != bits(SENT[1])) || ((sel & 4) != 0) != (bits(S2) != bits(SENT[7]))) bad("written-set", "RhumbLine.GenPosition wrote an unrequested output or skipped a requested one");
+      }
     }
   }
   // S12 must not depend on LONG_UNROLL
   double l, o, S1, S2; r.GenDirect(lat1, lon1, azi, s12, fl[0] | fl[1] | fl[2], l, o, S1); r.GenDirect(lat1, lon1, azi, s12, fl[0] | fl[1] | fl[2] | fl[3], l, o, S2);
-  if (bits(S1) != bits(S2) && !(std::isnan(S1) && std::isnan(S2))) bad("value-depends-on-mask", "Rhumb S12 depends on LONG_UNROLL");
+  if (!same(S1, S2)) bad("value-depends-on-mask", "Rhumb S12 depends on LONG_UNROLL");
+}
+static void rhumb_inverse_values(const Rhumb& r, double lat1, double lon1, double lat2, double lon2) {
+  const unsigned fl[4] = {Rhumb::DISTANCE, Rhumb::AZIMUTH, Rhumb::AREA, Rhumb::LONG_UNROLL};
+  double rs = SENT[3], ra = SENT[2], rS = SENT[7]; r.GenInverse(lat1, lon1, lat2, lon2, fl[0] | fl[1] | fl[2], rs, ra, rS);
+  for (unsigned sel = 0; sel < 32; ++sel) {
+    unsigned om = (sel & 1 ? fl[0] : 0) | (sel & 2 ? fl[1] : 0) | (sel & 4 ? fl[2] : 0) | (sel & 8 ? fl[3] : 0) | (sel & 16 ? (Rhumb::LATITUDE | Rhumb::LONGITUDE | (1u << 11) | (1u << 12) | (1u << 13)) : 0u);
+    double s = SENT[3], az = SENT[2], S = SENT[7]; r.GenInverse(lat1, lon1, lat2, lon2, om, s, az, S);
+    auto chk = [&](double v, double rf, double sent, const char* n) { if (bits(v) != bits(sent) && !same(v, rf)) bad("value-depends-on-mask", std::string("Rhumb.GenInverse ") + n + " depends on the mask (selection " + std::to_string(sel) + ")"); };
+    chk(s, rs, SENT[3], "s12"); chk(az, ra, SENT[2], "azi12"); chk(S, rS, SENT[7], "S12");
+    if (((sel & 1) != 0) != (bits(s) != bits(SENT[3])) || ((sel & 2) != 0) != (bits(az) != bits(SENT[2])) || ((sel & 4) != 0) != (bits(S) != bits(SENT[7]))) bad("written-set", "Rhumb.GenInverse wrote an unrequested output or skipped a requested one");
+  }
 }
 static Reg r_vals("maskvalues", [](const Args& a) {
   double lat1 = unhx(a[1]), lon1 = unhx(a[2]), azi1 = unhx(a[3]), len = unhx(a[4]); bool arc = a[5] == "1"; uint64_t sub = std::strtoull(a[6].c_str(), nullptr, 10);
-  if (a[0] == "G") values<Geodesic, GeodesicLine>(G(), FLAGS_G, lat1, lon1, azi1, len, arc, sub);
-  else if (a[0] == "X") values<Geodesic, GeodesicLine>(X(), FLAGS_G, lat1, lon1, azi1, len, arc, sub);
-  else if (a[0] == "E") values<GeodesicExact, GeodesicLineExact>(E(), FLAGS_E, lat1, lon1, azi1, len, arc, sub);
-  else if (a[0] == "R") rhumb_values(lat1, lon1, azi1, arc ? len * 1e5 : len);
-  else if (a[0] == "IG") inverse_values(G(), FLAGS_G, lat1, lon1, azi1 / 2, len);     // (lat1, lon1, lat2 = azi/2, lon2 = len)
-  else if (a[0] == "IE") inverse_values(E(), FLAGS_E, lat1, lon1, azi1 / 2, len);
+  const std::string& k = a[0]; int e = k[0] == 'I' ? (k.size() > 2 ? std::min(3, std::max(0, k[2] - '0')) : 0) : ellOf(k);
+  if (k[0] == 'G') values<Geodesic, GeodesicLine>(G(e), FLAGS_G, e, lat1, lon1, azi1, len, arc, sub);
+  else if (k[0] == 'X') values<Geodesic, GeodesicLine>(X(e), FLAGS_G, e, lat1, lon1, azi1, len, arc, sub);
+  else if (k[0] == 'E') values<GeodesicExact, GeodesicLineExact>(E(e), FLAGS_E, e, lat1, lon1, azi1, len, arc, sub);
+  else if (k[0] == 'R' || k[0] == 'S') rhumb_values(RH(k), lat1, lon1, azi1, arc ? len * 1e5 : len);
+  else if (k[0] == 'I' && k[1] == 'G') inverse_values(G(e), FLAGS_G, lat1, lon1, azi1, len);     // (lat1, lon1, lat2, lon2)
+  else if (k[0] == 'I' && k[1] == 'X') inverse_values(X(e), FLAGS_G, lat1, lon1, azi1, len);
+  else if (k[0] == 'I' && k[1] == 'E') inverse_values(E(e), FLAGS_E, lat1, lon1, azi1, len);
+  else if (k[0] == 'I' && (k[1] == 'R' || k[1] == 'S')) rhumb_inverse_values(RH(k.substr(1)), lat1, lon1, azi1, len);
   emit("done");
 });
 
+// ---------------------------------------------------------------------------------------------------------------------
+// (3) every inline overload returns, bit for bit, what the general function returns under the mask made of the flags
+//     of its reference parameters, and assigns every one of them
+// ---------------------------------------------------------------------------------------------------------------------
+static const char* SLOTNAME[8] = {"lat2", "lon2", "azi2", "s12", "m12", "M12", "M21", "S12"};
+static std::string refnames(unsigned slots, bool inverse) { std::string r; for (int i = 0; i < 8; ++i) { int j = inverse ? (i == 0 ? 3 : i == 1 ? 0 : i == 2 ? 2 : i == 3 ? 4 : i == 4 ? 5 : i == 5 ? 6 : i == 6 ? 7 : -1) : i; if (j < 0 || !(slots & (1u << j))) continue; if (!r.empty()) r += ","; r += inverse && j == 0 ? "azi1" : SLOTNAME[j]; } return r; }
+struct OvlCtx { std::string ids; std::string cls; };
+static void ovl_compare(OvlCtx& c, const std::string& id, const Outs& o, const Outs& q, unsigned, bool hasret, double r, double rq) {
+  if (!c.ids.empty()) c.ids += " "; c.ids += id;
+  for (int i = 0; i < 8; ++i) {
+    if (!same(o.v[i], q.v[i])) bad("overload", id + ": output " + SLOTNAME[i] + " = " + hx(o.v[i]) + " but the general function with the mask of its reference parameters gives " + hx(q.v[i]));
+  }
+  if (hasret && !same(r, rq)) bad("overload", id + ": returns " + hx(r) + " but the general function returns " + hx(rq));
+}
+enum { sLAT = 1, sLON = 2, sAZI = 4, sS = 8, sM = 16, sM12 = 32, sM21 = 64, sA = 128 };
+template<class Geod> static void solver_overloads(OvlCtx& c, const Geod& g, const unsigned* fl, double lat1, double lon1, double azi1, double s12, double a12, double lat2, double lon2) {
+  auto D = [&](unsigned slots, bool arc, bool hasret, auto call) {
+    Outs o; double r = call(o); Outs q; double rq = g.GenDirect(lat1, lon1, azi1, arc, arc ? a12 : s12, slotmask(fl, slots), q.v[0], q.v[1], q.v[2], q.v[3], q.v[4], q.v[5], q.v[6], q.v[7]);
+    ovl_compare(c, c.cls + (arc ? ".ArcDirect(" : ".Direct(") + refnames(slots, false) + ")", o, q, slots, hasret, r, rq); };
+  D(sLAT | sLON | sAZI | sM | sM12 | sM21 | sA, false, true, [&](Outs& o) { return g.Direct(lat1, lon1, azi1, s12, o.v[0], o.v[1], o.v[2], o.v[4], o.v[5], o.v[6], o.v[7]); });
+  D(sLAT | sLON, false, true, [&](Outs& o) { return g.Direct(lat1, lon1, azi1, s12, o.v[0], o.v[1]); });
+  D(sLAT | sLON | sAZI, false, true, [&](Outs& o) { return g.Direct(lat1, lon1, azi1, s12, o.v[0], o.v[1], o.v[2]); });
+  D(sLAT | sLON | sAZI | sM, false, true, [&](Outs& o) { return g.Direct(lat1, lon1, azi1, s12, o.v[0], o.v[1], o.v[2], o.v[4]); });
+  D(sLAT | sLON | sAZI | sM12 | sM21, false, true, [&](Outs& o) { return g.Direct(lat1, lon1, azi1, s12, o.v[0], o.v[1], o.v[2], o.v[5], o.v[6]); });
+  D(sLAT | sLON | sAZI | sM | sM12 | sM21, false, true, [&](Outs& o) { return g.Direct(lat1, lon1, azi1, s12, o.v[0], o.v[1], o.v[2], o.v[4], o.v[5], o.v[6]); });
+  D(0xff, true, false, [&](Outs& o) { g.ArcDirect(lat1, lon1, azi1, a12, o.v[0], o.v[1], o.v[2], o.v[3], o.v[4], o.v[5], o.v[6], o.v[7]); return 0.0; });
+  D(sLAT | sLON, true, false, [&](Outs& o) { g.ArcDirect(lat1, lon1, azi1, a12, o.v[0], o.v[1]); return 0.0; });
+  D(sLAT | sLON | sAZI, true, false, [&](Outs& o) { g.ArcDirect(lat1, lon1, azi1, a12, o.v[0], o.v[1], o.v[2]); return 0.0; });
+  D(sLAT | sLON | sAZI | sS, true, false, [&](Outs& o) { g.ArcDirect(lat1, lon1, azi1, a12, o.v[0], o.v[1], o.v[2], o.v[3]); return 0.0; });
+  D(sLAT | sLON | sAZI | sS | sM, true, false, [&](Outs& o) { g.ArcDirect(lat1, lon1, azi1, a12, o.v[0], o.v[1], o.v[2], o.v[3], o.v[4]); return 0.0; });
+  D(sLAT | sLON | sAZI | sS | sM12 | sM21, true, false, [&](Outs& o) { g.ArcDirect(lat1, lon1, azi1, a12, o.v[0], o.v[1], o.v[2], o.v[3], o.v[5], o.v[6]); return 0.0; });
+  D(sLAT | sLON | sAZI | sS | sM | sM12 | sM21, true, false, [&](Outs& o) { g.ArcDirect(lat1, lon1, azi1, a12, o.v[0], o.v[1], o.v[2], o.v[3], o.v[4], o.v[5], o.v[6]); return 0.0; });
+  // Inverse: slot 0 holds azi1 (flag AZIMUTH, like azi2 in slot 2); slot 1 is unused
+  auto I = [&](unsigned slots, auto call) {
+    Outs o; double r = call(o); Outs q; unsigned om = slotmask(fl, slots & ~1u) | ((slots & 1u) ? fl[2] : 0u);
+    double rq = g.GenInverse(lat1, lon1, lat2, lon2, om, q.v[3], q.v[0], q.v[2], q.v[4], q.v[5], q.v[6], q.v[7]);
+    ovl_compare(c, c.cls + ".Inverse(" + refnames(slots, true) + ")", o, q, slots, true, r, rq); };
+  I(sS | 1 | sAZI | sM | sM12 | sM21 | sA, [&](Outs& o) { return g.Inverse(lat1, lon1, lat2, lon2, o.v[3], o.v[0], o.v[2], o.v[4], o.v[5], o.v[6], o.v[7]); });
+  I(sS, [&](Outs& o) { return g.Inverse(lat1, lon1, lat2, lon2, o.v[3]); });
+  I(1 | sAZI, [&](Outs& o) { return g.Inverse(lat1, lon1, lat2, lon2, o.v[0], o.v[2]); });
+  I(sS | 1 | sAZI, [&](Outs& o) { return g.Inverse(lat1, lon1, lat2, lon2, o.v[3], o.v[0], o.v[2]); });
+  I(sS | 1 | sAZI | sM, [&](Outs& o) { return g.Inverse(lat1, lon1, lat2, lon2, o.v[3], o.v[0], o.v[2], o.v[4]); });
+  I(sS | 1 | sAZI | sM12 | sM21, [&](Outs& o) { return g.Inverse(lat1, lon1, lat2, lon2, o.v[3], o.v[0], o.v[2], o.v[5], o.v[6]); });
+  I(sS | 1 | sAZI | sM | sM12 | sM21, [&](Outs& o) { return g.Inverse(lat1, lon1, lat2, lon2, o.v[3], o.v[0], o.v[2], o.v[4], o.v[5], o.v[6]); });
+}
+template<class Line> static void line_overloads(OvlCtx& c, const Line& l, const unsigned* fl, double s12, double a12) {
+  auto P = [&](unsigned slots, bool arc, bool hasret, auto call) {
+    Outs o; double r = call(o); Outs q; double rq = l.GenPosition(arc, arc ? a12 : s12, slotmask(fl, slots), q.v[0], q.v[1], q.v[2], q.v[3], q.v[4], q.v[5], q.v[6], q.v[7]);
+    ovl_compare(c, c.cls + (arc ? ".ArcPosition(" : ".Position(") + refnames(slots, false) + ")", o, q, slots, hasret, r, rq); };
+  P(sLAT | sLON | sAZI | sM | sM12 | sM21 | sA, false, true, [&](Outs& o) { return l.Position(s12, o.v[0], o.v[1], o.v[2], o.v[4], o.v[5], o.v[6], o.v[7]); });
+  P(sLAT | sLON, false, true, [&](Outs& o) { return l.Position(s12, o.v[0], o.v[1]); });
+  P(sLAT | sLON | sAZI, false, true, [&](Outs& o) { return l.Position(s12, o.v[0], o.v[1], o.v[2]); });
+  P(sLAT | sLON | sAZI | sM, false, true, [&](Outs& o) { return l.Position(s12, o.v[0], o.v[1], o.v[2], o.v[4]); });
+  P(sLAT | sLON | sAZI | sM12 | sM21, false, true, [&](Outs& o) { return l.Position(s12, o.v[0], o.v[1], o.v[2], o.v[5], o.v[6]); });
+  P(sLAT | sLON | sAZI | sM | sM12 | sM21, false, true, [&](Outs& o) { return l.Position(s12, o.v[0], o.v[1], o.v[2], o.v[4], o.v[5], o.v[6]); });
+  P(0xff, true, false, [&](Outs& o) { l.ArcPosition(a12, o.v[0], o.v[1], o.v[2], o.v[3], o.v[4], o.v[5], o.v[6], o.v[7]); return 0.0; });
+  P(sLAT | sLON, true, false, [&](Outs& o) { l.ArcPosition(a12, o.v[0], o.v[1]); return 0.0; });
+  P(sLAT | sLON | sAZI, true, false, [&](Outs& o) { l.ArcPosition(a12, o.v[0], o.v[1], o.v[2]); return 0.0; });
+  P(sLAT | sLON | sAZI | sS, true, false, [&](Outs& o) { l.ArcPosition(a12, o.v[0], o.v[1], o.v[2], o.v[3]); return 0.0; });
+  P(sLAT | sLON | sAZI | sS | sM, true, false, [&](Outs& o) { l.ArcPosition(a12, o.v[0], o.v[1], o.v[2], o.v[3], o.v[4]); return 0.0; });
+  P(sLAT | sLON | sAZI | sS | sM12 | sM21, true, false, [&](Outs& o) { l.ArcPosition(a12, o.v[0], o.v[1], o.v[2], o.v[3], o.v[5], o.v[6]); return 0.0; });
+  P(sLAT | sLON | sAZI | sS | sM | sM12 | sM21, true, false, [&](Outs& o) { l.ArcPosition(a12, o.v[0], o.v[1], o.v[2], o.v[3], o.v[4], o.v[5], o.v[6]); return 0.0; });
+}
+static void rhumb_overloads(OvlCtx& c, const Rhumb& r, double lat1, double lon1, double azi, double s12, double lat2, double lon2, unsigned anymask) {
+  // slots: lat2 0, lon2 1, S12 7 (direct); s12 3, azi12 2, S12 7 (inverse)
+  auto cmp = [&](const std::string& id, const Outs& o, const Outs& q, unsigned slots) { ovl_compare(c, id, o, q, slots, false, 0, 0); };
+  { Outs o, q; r.Direct(lat1, lon1, azi, s12, o.v[0], o.v[1], o.v[7]); r.GenDirect(lat1, lon1, azi, s12, Rhumb::LATITUDE | Rhumb::LONGITUDE | Rhumb::AREA, q.v[0], q.v[1], q.v[7]); cmp("Rhumb.Direct(lat2,lon2,S12)", o, q, sLAT | sLON | sA); }
+  { Outs o, q; r.Direct(lat1, lon1, azi, s12, o.v[0], o.v[1]); r.GenDirect(lat1, lon1, azi, s12, Rhumb::LATITUDE | Rhumb::LONGITUDE, q.v[0], q.v[1], q.v[7]); cmp("Rhumb.Direct(lat2,lon2)", o, q, sLAT | sLON); }
+  { Outs o, q; r.Inverse(lat1, lon1, lat2, lon2, o.v[3], o.v[2], o.v[7]); r.GenInverse(lat1, lon1, lat2, lon2, Rhumb::DISTANCE | Rhumb::AZIMUTH | Rhumb::AREA, q.v[3], q.v[2], q.v[7]); cmp("Rhumb.Inverse(s12,azi12,S12)", o, q, sS | sAZI | sA); }
+  { Outs o, q; r.Inverse(lat1, lon1, lat2, lon2, o.v[3], o.v[2]); r.GenInverse(lat1, lon1, lat2, lon2, Rhumb::DISTANCE | Rhumb::AZIMUTH, q.v[3], q.v[2], q.v[7]); cmp("Rhumb.Inverse(s12,azi12)", o, q, sS | sAZI); }
+  // the private eight-/seven-reference wrappers used by PolygonAreaT<Rhumb>: pass `outmask` through, touch only lat2, lon2, S12 / s12, azi12, S12
+  { Outs o, q; r.GenDirect(lat1, lon1, azi, false, s12, anymask, o.v[0], o.v[1], o.v[2], o.v[3], o.v[4], o.v[5], o.v[6], o.v[7]); r.GenDirect(lat1, lon1, azi, s12, anymask, q.v[0], q.v[1], q.v[7]); cmp("Rhumb.GenDirect(lat2,lon2,,,,,,S12)", o, q, 0); }
+  { Outs o, q; r.GenInverse(lat1, lon1, lat2, lon2, anymask, o.v[3], o.v[2], o.v[0], o.v[4], o.v[5], o.v[6], o.v[7]); r.GenInverse(lat1, lon1, lat2, lon2, anymask, q.v[3], q.v[2], q.v[7]); cmp("Rhumb.GenInverse(s12,azi12,,,,,S12)", o, q, 0); }
+  RhumbLine l = r.Line(lat1, lon1, azi);
+  { Outs o, q; l.Position(s12, o.v[0], o.v[1], o.v[7]); l.GenPosition(s12, RhumbLine::LATITUDE | RhumbLine::LONGITUDE | RhumbLine::AREA, q.v[0], q.v[1], q.v[7]); cmp("RhumbLine.Position(lat2,lon2,S12)", o, q, sLAT | sLON | sA); }
+  { Outs o, q; l.Position(s12, o.v[0], o.v[1]); l.GenPosition(s12, RhumbLine::LATITUDE | RhumbLine::LONGITUDE, q.v[0], q.v[1], q.v[7]); cmp("RhumbLine.Position(lat2,lon2)", o, q, sLAT | sLON); }
+  // Direct and RhumbLine::Position are the same computation
+  { Outs o, q; r.Direct(lat1, lon1, azi, s12, o.v[0], o.v[1], o.v[7]); l.Position(s12, q.v[0], q.v[1], q.v[7]); for (int i = 0; i < 8; ++i) if (!same(o.v[i], q.v[i])) bad("overload", "Rhumb.Direct and RhumbLine.Position differ"); }
+}
+static Reg r_ovl("ovl", [](const Args& a) {
+  double lat1 = unhx(a[1]), lon1 = unhx(a[2]), azi1 = unhx(a[3]), s12 = unhx(a[4]), a12 = unhx(a[5]), lat2 = unhx(a[6]), lon2 = unhx(a[7]); unsigned caps = unsigned(std::stoul(a[8]));
+  OvlCtx c; int k = ellOf(a[0]);
+  if (a[0][0] == 'G' || a[0][0] == 'X') { const Geodesic& g = a[0][0] == 'G' ? G(k) : X(k); c.cls = "Geodesic"; solver_overloads(c, g, FLAGS_G, lat1, lon1, azi1, s12, a12, lat2, lon2);
+    c.cls = "GeodesicLine"; GeodesicLine l = g.Line(lat1, lon1, azi1, caps); line_overloads(c, l, FLAGS_G, s12, a12); }
+  else if (a[0][0] == 'E') { c.cls = "GeodesicExact"; solver_overloads(c, E(k), FLAGS_E, lat1, lon1, azi1, s12, a12, lat2, lon2);
+    c.cls = "GeodesicLineExact"; GeodesicLineExact l = E(k).Line(lat1, lon1, azi1, caps); line_overloads(c, l, FLAGS_E, s12, a12); }
+  else rhumb_overloads(c, RH(a[0]), lat1, lon1, azi1, s12, lat2, lon2, caps);
+  emit(c.ids);
+});
+
+// ---------------------------------------------------------------------------------------------------------------------
+// (4) the third point of a line object under arbitrary histories of SetDistance / SetArc / GenSetDistance / readers
+// ---------------------------------------------------------------------------------------------------------------------
+template<class Geod, class Line> static void linehist(const Geod& g, const unsigned* fl, int ell, const Args& a) {
+  double lat1 = unhx(a[1]), lon1 = unhx(a[2]), azi1 = unhx(a[3]); const std::string& ctor = a[4]; unsigned caps = unsigned(std::stoul(a[5])); double cx = untk(a[6]), cy = untk(a[7]);
+  unsigned ALLM = build(fl, 0xff); double t;
+  auto make = [&](unsigned cp) -> Line {
+    if (ctor == "L") return Line(g, lat1, lon1, azi1, cp);
+    if (ctor == "GL") return g.Line(lat1, lon1, azi1, cp);
+    if (ctor == "D") return g.DirectLine(lat1, lon1, azi1, cx, cp);
+    if (ctor == "A") return g.ArcDirectLine(lat1, lon1, azi1, cx, cp);
+    if (ctor == "G0") return g.GenDirectLine(lat1, lon1, azi1, false, cx, cp);
+    if (ctor == "G1") return g.GenDirectLine(lat1, lon1, azi1, true, cx, cp);
+    if (ctor == "I") return g.InverseLine(lat1, lon1, cx, cy, cp);
+    DefLine<Line> dl(ctor.size() > 1 ? ctor[1] - '0' : 0); return *dl.p; };
+  Line l = make(caps);                     // the object that lives through the history
+  const Line fr = make(ALLM);              // a fresh object with every capability: supplies the numeric kernels
+  auto arcOf = [&](double s) { double u; return fr.GenPosition(false, s, 0u, u, u, u, u, u, u, u, u); };
+  auto distOf = [&](double x) { double u, s = Math::NaN(); fr.GenPosition(true, x, fl[3], u, u, u, s, u, u, u, u); return s; };
+  std::string res = std::to_string(l.Capabilities());
+  double a12 = Math::NaN();
+  if (ctor == "I") { double u; a12 = g.GenInverse(lat1, lon1, cx, cy, 0u, u, u, u, u, u, u, u); res += " i:" + tk(a12) + ":" + tk(arcOf(a12)) + ":" + tk(distOf(a12)); }
+  else if (ctor == "D" || ctor == "A" || ctor == "G0" || ctor == "G1") res += " c:" + tk(arcOf(cx)) + ":" + tk(distOf(cx));
+  else res += " -";
+  int lastset = -1;
+  for (size_t i = 8; i < a.size(); ++i) {
+    const std::string& e = a[i]; std::string tag = e.substr(0, 2);
+    if (tag == "sD") { double x = untk(e.substr(2)); l.SetDistance(x); res += " k:" + tk(arcOf(x)) + ":" + tk(distOf(x)); lastset = int(i); }
+    else if (tag == "sA") { double x = untk(e.substr(2)); l.SetArc(x); res += " k:" + tk(arcOf(x)) + ":" + tk(distOf(x)); lastset = int(i); }
+    else if (tag == "g0") { double x = untk(e.substr(2)); l.GenSetDistance(false, x); res += " k:" + tk(arcOf(x)) + ":" + tk(distOf(x)); lastset = int(i); }
+    else if (tag == "g1") { double x = untk(e.substr(2)); l.GenSetDistance(true, x); res += " k:" + tk(arcOf(x)) + ":" + tk(distOf(x)); lastset = int(i); }
+    else if (e == "rD") res += " " + tk(l.Distance());
+    else if (e == "rA") res += " " + tk(l.Arc());
+    else if (e == "r0") res += " " + tk(l.GenDistance(false));
+    else if (e == "r1") res += " " + tk(l.GenDistance(true));
+    else if (e == "cp") { Line c2(l); Line c3(c2); c3 = c2; l = c3; res += " -"; }
+    else { bad("harness", "unknown history event " + e); }
+  }
+  double fD = l.Distance(), fA = l.Arc();
+  res += " f:" + tk(fD) + ":" + tk(fA) + ":" + tk(l.GenDistance(false)) + ":" + tk(l.GenDistance(true)) + ":" + std::to_string(l.Capabilities());
+  // --- property-level oracles on the implementation ---
+  // (a) history independence: a fresh object given only the last setter call is in the same state
+  { Line l2 = make(caps);
+    if (lastset >= 0) { const std::string& e = a[lastset]; std::string tag = e.substr(0, 2); double x = untk(e.substr(2));
+      if (tag == "sD") l2.SetDistance(x); else if (tag == "sA") l2.SetArc(x); else l2.GenSetDistance(tag == "g1", x); }
+    if (!same(l2.Distance(), fD) || !same(l2.Arc(), fA))
+      bad("history-dependence", "after the history Distance() = " + tk(fD) + ", Arc() = " + tk(fA) + "; a fresh line given only the last setter call has Distance() = " + tk(l2.Distance()) + ", Arc() = " + tk(l2.Arc())); }
+  // (b) a third point that is only half defined must say so: Distance() is a number only if the line can use it or it is what the caller set
+  if (ctor[0] != 'U') {
+    bool hasDin = (caps | (ctor == "D" || ctor == "G0" ? fl[4] : 0u)) & (1u << 11), hasD = (caps | (ctor == "I" && (caps & (1u << 11)) ? fl[3] : 0u)) & (1u << 10);
+    if (lastset >= 0) { std::string tag = a[lastset].substr(0, 2); double x = untk(a[lastset].substr(2)); bool arcset = tag == "sA" || tag == "g1";
+      if (arcset && !hasD && !std::isnan(fD)) bad("stale-third-point", "the third point was set by arc on a line without the DISTANCE capability, yet Distance() = " + tk(fD));
+      if (!arcset && !hasDin && !std::isnan(fA)) bad("stale-third-point", "the third point was set by distance on a line without the DISTANCE_IN capability, yet Arc() = " + tk(fA));
+      if (arcset && !same(fA, x)) bad("third-point", "SetArc/Arc"); if (!arcset && !same(fD, x)) bad("third-point", "SetDistance/Distance"); }
+  } else if (!std::isnan(fD) || !std::isnan(fA)) bad("uninitialised-line", "Distance()/Arc() of a default-constructed line is a number");
+  // (c) Distance() and Arc() address the same point when both are numbers
+  if (ctor[0] != 'U' && std::isfinite(fD) && std::isfinite(fA) && (ell == 0 || ell == 3) && std::fabs(fD) < 1e8) {
+    double la, lo, la2, lo2; fr.ArcPosition(fA, la, lo); fr.Position(fD, la2, lo2);
+    double d = std::hypot(la - la2, Math::AngDiff(lo, lo2) * std::cos(la * Math::degree())) * 111e3;
+    if (std::fabs(la) < 89.9 && !(d < 100e-9 * std::fmax(1.0, std::fabs(fA) / 180))) bad("arc-vs-distance", "ArcPosition(Arc()) and Position(Distance()) differ by " + std::to_string(d * 1e9) + " nm"); }
+  // (d) the constructors' third point is the point that defined the line
+  { Line l0 = make(caps); unsigned LA = fl[0] | fl[2];
+    if (ctor == "D" || ctor == "G0") { Outs o, q; double r1 = l0.GenPosition(false, l0.Distance(), LA, o.v[0], t, o.v[2], t, t, t, t, t), r2 = g.GenDirect(lat1, lon1, azi1, false, cx, LA, q.v[0], t, q.v[2], t, t, t, t, t);
+      if (!same(l0.Distance(), cx) || !same(o.v[0], q.v[0]) || !same(o.v[2], q.v[2]) || !same(r1, r2) || !same(l0.Arc(), r2)) bad("third-point", "DirectLine: Position(Distance()) is not the end point of Direct, or Arc() is not its arc length"); }
+    if (ctor == "A" || ctor == "G1") { Outs o, q; l0.GenPosition(true, l0.Arc(), LA | fl[3], o.v[0], t, o.v[2], o.v[3], t, t, t, t); g.GenDirect(lat1, lon1, azi1, true, cx, LA | fl[3], q.v[0], t, q.v[2], q.v[3], t, t, t, t);
+      if (!same(l0.Arc(), cx) || !same(o.v[0], q.v[0]) || !same(o.v[2], q.v[2])) bad("third-point", "ArcDirectLine: ArcPosition(Arc()) is not the end point of ArcDirect");
+      if ((caps & (1u << 10)) && !same(l0.Distance(), q.v[3])) bad("third-point", "ArcDirectLine: Distance() is not the s12 of ArcDirect"); }
+    if (ctor == "I") { if (!same(l0.Arc(), a12)) bad("third-point", "InverseLine: Arc() is not the a12 of the inverse problem");
+      if ((caps & (1u << 11)) && std::isnan(l0.Distance()) && !std::isnan(a12)) bad("third-point", "InverseLine with DISTANCE_IN: Distance() is NaN"); } }
+  emit(res);
+}
+static Reg r_linehist("linehist", [](const Args& a) {
+  int k = ellOf(a[0]);
+  auto body = [&] { if (a[0][0] == 'E') linehist<GeodesicExact, GeodesicLineExact>(E(k), FLAGS_E, k, a);
+    else linehist<Geodesic, GeodesicLine>(a[0][0] == 'G' ? G(k) : X(k), FLAGS_G, k, a); };
+  if (a[4][0] == 'U' && a[4] != "U0" && a[4] != "U1" && a[0][0] != 'E') in_child(body); else body();
+});
+
+// ---------------------------------------------------------------------------------------------------------------------
 void gv::generate(const std::string& tier, uint64_t seed) {
   Rng r(seed * 86028121 + 12);
   bool th = tier == "thorough";
@@ -140,28 +422,55 @@ void gv::generate(const std::string& tier, uint64_t seed) {
   for (int s = 0; s < 3; ++s) for (int c = 0; c < ncaps; ++c) {
     unsigned csel = th ? unsigned(c) : unsigned(r.next() % 512); if (!th && c < 10) csel = std::vector<unsigned>{0, 511, 16, 1, 2, 8, 24, 0x1e0, 0x10 | 0x80, 0xef}[c];
     const unsigned* fl = s == 2 ? FLAGS_E : FLAGS_G; unsigned caps = build(fl, csel);
+    std::string svk = std::string(sv[s]) + (c % 5 == 4 ? "1" : "");     // some on the ellipsoid with |f| > 0.01
     for (unsigned osel = 0; osel < 512; ++osel) { if (!th && (osel * 40503u + c) % 4 != 0) continue;
-      for (int arc = 0; arc < 2; ++arc) run("linemask", {sv[s], std::to_string(caps), std::to_string(build(fl, osel)), arc ? "1" : "0"}); }
+      for (int arc = 0; arc < 2; ++arc) run("linemask", {svk, std::to_string(caps), std::to_string(build(fl, osel)), arc ? "1" : "0"}); }
+    stratum("written-line");
   }
-  for (unsigned osel = 0; osel < 512; ++osel) for (int s = 0; s < 4; ++s) {
-    const char* svi[4] = {"G", "X", "E", "R"}; const unsigned* fl = s == 2 ? FLAGS_E : FLAGS_G;
-    unsigned om = s == 3 ? (osel << 7) : build(fl, osel);
+  for (unsigned osel = 0; osel < 512; ++osel) for (int s = 0; s < 5; ++s) {
+    const char* svi[5] = {"G", "X", "E", "R", "S"}; const unsigned* fl = s == 2 ? FLAGS_E : FLAGS_G;
+    unsigned om = s >= 3 ? (osel << 7) : build(fl, osel);
     run("invmask", {svi[s], std::to_string(om)}); run("dirmask", {svi[s], std::to_string(om), "0"}); if (s < 3) run("dirmask", {svi[s], std::to_string(om), "1"});
+    if (s >= 3) for (double s12 : {2e6, 1.2e7, -1.3e7, 3e7}) run("rlinemask", {svi[s], std::to_string(om), hx(s12)});     // 1.2e7 m at azimuth 30 from latitude 10 passes the pole
+    if (s < 3 && (th || osel % 4 == 0)) for (int arc = 0; arc < 2; ++arc) for (int fill = 0; fill < (s == 2 ? 1 : 2); ++fill) run("uninitmask", {svi[s], std::to_string(om), arc ? "1" : "0", std::to_string(fill)});
+    if (s < 2 && osel == 511) run("uninitmask", {svi[s], std::to_string(om), "1", "7"});      // the state a stack usually leaves (finding F66)
   }
+  stratum("written-solvers");
+  // Capabilities(): every capability set x test sets
+  for (int s = 0; s < 3; ++s) for (unsigned csel = 0; csel < 512; ++csel) {
+    const unsigned* fl = s == 2 ? FLAGS_E : FLAGS_G; int nt = th ? 16 : 3;
+    for (int j = 0; j < nt; ++j) { unsigned tsel = j == 0 ? csel : unsigned(r.next() % 512); unsigned tc = build(fl, tsel); if (j == 2) tc = unsigned(r.next() & 0xffffu);
+      run("capstest", {sv[s], std::to_string(build(fl, csel)), std::to_string(tc)}); }
+  }
+  stratum("capabilities");
   // (2) values
-  long n = th ? 400 : 24;
+  long n = th ? 480 : 30;
   for (long i = 0; i < n; ++i) {
     double lat1 = r.irange(0, 5) ? r.range(-89, 89) : r.pick(std::vector<double>{0, 90, -90, 45}), lon1 = r.irange(0, 4) ? r.range(-180, 180) : r.pick(std::vector<double>{170, -179, 200, 0, 359});
     double azi = r.irange(0, 5) ? r.range(-180, 180) : r.pick(std::vector<double>{0, 90, 180, -90, 1e-9});
     bool arc = r.coin(); double len = arc ? r.range(-400, 400) : r.range(-3e7, 5e7); if (i % 7 == 0) len = arc ? 1e-7 : 1e-3;
-    const char* kinds[6] = {"G", "X", "E", "R", "IG", "IE"};
+    const char* kinds[6] = {"G", "X", "E", "R", "S", "IR"};
     std::string k = kinds[i % 6];
-    if (k[0] == 'I') run("maskvalues", {k, hx(lat1), hx(lon1), hx(r.range(-178, 178)), hx(r.range(-180, 180)), "0", std::to_string(i)});
-    else if (k == "R") run("maskvalues", {k, hx(lat1 * 0.9), hx(lon1), hx(azi), hx(arc ? r.range(-200, 200) : r.range(-2.5e7, 2.5e7)), arc ? "1" : "0", std::to_string(i)});
-    else run("maskvalues", {k, hx(lat1), hx(lon1), hx(azi), hx(len), arc ? "1" : "0", std::to_string(i)});
-    stratum("values-" + k);
+    int ell = (i / 6) % 4 == 3 ? 1 + int((i / 24 + seed) % 3) : 0;           // three quarters on WGS84, the rest on f = 0.02, −0.02, 0
+    if (false) {}
+    else if (k == "IR") { for (const char* q : {"IR", "IS"}) run("maskvalues", {std::string(q) + std::to_string(ell), hx(lat1 * 0.9), hx(lon1), hx(r.range(-85, 85)), hx(r.range(-180, 180)), "0", std::to_string(i)}); stratum("values-IR"); }
+    else if (k == "R" || k == "S") { run("maskvalues", {k + std::to_string(ell), hx(lat1 * 0.9), hx(lon1), hx(azi), hx(arc ? r.range(-200, 200) : r.range(-2.5e7, 2.5e7)), arc ? "1" : "0", std::to_string(i)}); stratum("values-" + k); }
+    else { run("maskvalues", {k + std::to_string(ell), hx(lat1), hx(lon1), hx(azi), hx(len), arc ? "1" : "0", std::to_string(i)}); stratum("values-" + k + (ell ? "-otherf" : "")); }
     if (i < 3) sample(current_op());
   }
+  // (2b) inverse problems of every kind (the branch GenInverse takes decides how the lengths are obtained), every mask
+  { const char* inv[3] = {"IG", "IE", "IX"}; const char* kn[8] = {"random", "meridional", "equatorial", "short", "antipodal", "coincident", "polar", "meridional-tiny"};
+    int reps = th ? 10 : 1;
+    for (int rep = 0; rep < reps; ++rep) for (int s = 0; s < 3; ++s) for (int kind = 0; kind < 8; ++kind) {
+      int ell = (rep + kind + s) % 5 == 4 ? 1 + (rep + s) % 3 : 0;
+      double la1 = r.irange(0, 5) ? r.range(-89, 89) : r.pick(std::vector<double>{0, 45, -30}), lo1 = r.range(-180, 180), la2 = r.range(-89, 89), lo2 = r.range(-180, 180);
+      if (kind == 1) lo2 = r.coin() ? lo1 : lo1 + 180; else if (kind == 2) { la1 = la2 = 0; lo2 = lo1 + r.range(-170, 170); }
+      else if (kind == 3) { la2 = la1 + r.range(-1, 1) * 1e-6; lo2 = lo1 + r.range(-1, 1) * 1e-6; } else if (kind == 4) { la2 = -la1 + r.range(-0.5, 0.5); lo2 = lo1 + 180 + r.range(-0.5, 0.5); }
+      else if (kind == 5) { la2 = la1; lo2 = lo1; } else if (kind == 6) { la1 = r.coin() ? 90 : -90; }
+      else if (kind == 7) { if (la1 == 0) la1 = 30; la1 = frombits((bits(la1) & ~0xfffULL) | 0x800ULL); la2 = r.coin() ? nextup(la1, r.irange(1, 6)) : nextdn(la1, r.irange(1, 6)); lo2 = lo1; }   // a few ulps apart on one meridian: sig12 below tol0
+      run("maskvalues", {std::string(inv[s]) + std::to_string(ell), hx(la1), hx(lo1), hx(la2), hx(lo2), "0", std::to_string(rep)});
+      stratum(std::string("values-") + inv[s] + "-" + kn[kind]);
+    } }
   // (3) rhumb lines that span more than half / more than a whole turn of longitude (the wrapped and the unrolled
   //     longitude differ there, so an output computed from the wrong one shows up): cheap, so many of them
   long nr = th ? 600 : 60;
@@ -169,8 +478,42 @@ void gv::generate(const std::string& tier, uint64_t seed) {
     double lat1 = r.range(-70, 70), lon1 = r.irange(0, 3) ? r.range(-180, 180) : r.pick(std::vector<double>{179, -179, 0, 359});
     double azi = (r.coin() ? 90 : -90) + r.range(-40, 40);
     double s12 = (r.coin() ? 1 : -1) * r.range(1.2e7, i % 3 == 0 ? 9e7 : 3e7);
-    run("maskvalues", {"R", hx(lat1), hx(lon1), hx(azi), hx(s12), "0", std::to_string(i)});
+    run("maskvalues", {i % 4 == 3 ? "S" : "R", hx(lat1), hx(lon1), hx(azi), hx(s12), "0", std::to_string(i)});
     stratum("values-R-long");
+  }
+  // (4) every inline overload against the general function
+  long no = th ? 400 : 40;
+  for (long i = 0; i < no; ++i) {
+    const char* kinds[5] = {"G", "X", "E", "R", "S"}; std::string k = kinds[i % 5]; int ell = (i / 5) % 4 == 3 ? 1 + int(i / 20) % 3 : 0;
+    double lat1 = r.irange(0, 5) ? r.range(-89, 89) : r.pick(std::vector<double>{0, 90, -90}), lon1 = r.range(-180, 180), azi = r.irange(0, 5) ? r.range(-180, 180) : r.pick(std::vector<double>{0, 90, 180});
+    if (isRhumb(k)) lat1 *= 0.95;
+    double s12 = r.irange(0, 6) ? r.range(-3e7, 3e7) : 0.0, a12 = r.irange(0, 6) ? r.range(-400, 400) : 180.0, lat2 = r.range(-89, 89), lon2 = r.range(-180, 180);
+    // capabilities of the line whose overloads are tried: all, or a random set with DISTANCE_IN (an overload must then behave like
+    // the general function on that line: outputs the line cannot give stay untouched in both); for rhumb: an arbitrary mask for the wrappers
+    unsigned caps = isRhumb(k) ? unsigned(r.next() & 0xff80u) : (i % 3 == 0 ? build(k == "E" ? FLAGS_E : FLAGS_G, unsigned(r.next() % 512) | 0x10u) : build(k == "E" ? FLAGS_E : FLAGS_G, 0xff));
+    run("ovl", {k + std::to_string(ell), hx(lat1), hx(lon1), hx(azi), hx(s12), hx(a12), hx(lat2), hx(lon2), std::to_string(caps)});
+    stratum("overloads-" + k);
+  }
+  // (5) the third point under random histories: every capability set x solver x constructor
+  const char* ctors[8] = {"L", "GL", "U", "D", "A", "G0", "G1", "I"};
+  int per = th ? 6 : 1; int nU7[2] = {0, 0};
+  for (int s = 0; s < 3; ++s) for (unsigned csel = 0; csel < 512; ++csel) for (int rep = 0; rep < per; ++rep) {
+    const unsigned* fl = s == 2 ? FLAGS_E : FLAGS_G; unsigned caps = build(fl, csel);
+    int ell = r.irange(0, 7) ? 0 : r.irange(1, 3);
+    std::string ctor = ctors[(csel + rep * 3 + s) % 8]; if (r.irange(0, 40) == 0) ctor = "U";
+    if (ctor == "U") ctor = s == 2 ? "U0" : nU7[s]++ == 3 ? "U7" : r.coin() ? "U0" : "U1";
+    auto dist = [&]() { int q = r.irange(0, 11); return q == 0 ? 0.0 : q == 1 ? -0.0 : q == 2 ? 1e-3 : q == 3 ? Math::NaN() : q == 4 ? (r.coin() ? 1.0 : -1.0) * std::numeric_limits<double>::infinity() : q == 5 ? 1e7 : r.range(-3e7, 5e7); };
+    auto arcv = [&]() { int q = r.irange(0, 11); return q == 0 ? 0.0 : q == 1 ? -0.0 : q == 2 ? 90.0 : q == 3 ? Math::NaN() : q == 4 ? 180.0 : q == 5 ? 1e-7 : r.range(-400, 400); };
+    double lat1 = r.irange(0, 7) ? r.range(-89, 89) : r.pick(std::vector<double>{0, 90, -90}), lon1 = r.range(-180, 180), azi = r.irange(0, 7) ? r.range(-180, 180) : r.pick(std::vector<double>{0, 90, 180});
+    Args a = {std::string(sv[s]) + std::to_string(ell), hx(lat1), hx(lon1), hx(azi), ctor, std::to_string(caps), "nan", "nan"};
+    if (ctor == "D" || ctor == "G0") a[6] = tk(dist()); else if (ctor == "A" || ctor == "G1") a[6] = tk(arcv()); else if (ctor == "I") { a[6] = hx(r.range(-89, 89)); a[7] = hx(r.range(-180, 180)); }
+    int len = r.irange(1, 12);
+    for (int j = 0; j < len; ++j) { int q = r.irange(0, 13);
+      if (q < 2) a.push_back("sD" + tk(dist())); else if (q < 4) a.push_back("sA" + tk(arcv())); else if (q == 4) a.push_back("g0" + tk(dist())); else if (q == 5) a.push_back("g1" + tk(arcv()));
+      else if (q < 8) a.push_back("rD"); else if (q < 10) a.push_back("rA"); else if (q == 10) a.push_back("r0"); else if (q == 11) a.push_back("r1"); else a.push_back("cp"); }
+    run("linehist", a);
+    stratum("history-" + ctor.substr(0, ctor[0] == 'U' ? 1 : 2));
+    if (csel == 5 && rep == 0) sample(current_op());
   }
 }
 int main(int argc, char** argv) { return gv::main_(argc, argv); }
